@@ -21,14 +21,14 @@ def streams():
 
 
 ASSUMPTIONS = [
-    "C01_sign_partial / C01_remainder_partial carry the hypothesis side_ok (no negative excess after an approximate math.isclose cover; request - assigned >= 0 before the greedy top-up). It is not yet derived from `admitted` inside Coq; every generated in-domain case file requires it to hold on the model (check fails otherwise) and the oracle judges sign/remainder on the implementation directly.",
     "Requests with |p| <= 1e-9 W are treated as zero by the code (is_close_to_zero) and are outside the theorems (czero p = false); a total capacity <= 1e-9 makes the code raise ValueError (model: None) and is outside the oracle's domain.",
-    "pow(available_soc, exponent) enters the model as an arbitrary function argument; component ids are assumed pairwise distinct (dicts keyed by id / frozenset of ids are positional lists in the model).",
-    "The admission condition is defined inside this area as the pool's advertised exclusion bounds (per group max(battery excl, sum inverter excl), summed), the formula of PowerBoundsCalculator; BatteryManager._get_bounds/_check_request itself belongs to C17.",
+    "C01_remainder's lower half carries the explicit slack remainder_slack = n*eps + 2*rel_tol*(pool inclusion bound) forced by the code's own tolerances (eps translated from /repo, rel_tol = math.isclose's default 1e-9, n = number of battery groups); the upper half, C01_sum and C01_sign are exact.",
+    "pow(available_soc, exponent) enters the model as an arbitrary function argument (C01_remainder: non-negative on non-negative arguments); component ids are assumed pairwise distinct (dicts keyed by id / frozenset of ids are positional lists in the model).",
+    "The admission condition is defined inside this area as the pool's advertised exclusion bounds (per group max(battery excl, sum inverter excl), summed), the formula of PowerBoundsCalculator; BatteryManager._get_bounds/_check_request enforce the weaker max(sum bat, sum inv) (C17). Requests between the two are generated for the correspondence (label request_between_enforced_and_advertised_excl) but are outside the oracle's domain.",
 ]
 
 META = {
-    "technique": "Coq proofs over an executable Q model of BatteryDistributionAlgorithm (bookkeeping invariants of greedy top-up and inverter split by induction over the component lists; sign flip for supply) + differential correspondence: the real distribute_power run on exact rationals (duck-typed records, lib.exact.X) vs the model evaluated inside Coq by vm_compute + float run vs exact run + property oracle on the implementation's output",
-    "level_text": "Machine-checked, closed under the global context: C01_sum (set-points + remainder == request exactly in Q, for EVERY data set and every pow function, request not treated as zero), C01_reported_is_commanded (request - remainder == sum of set-points, the BatteryManager step), C01_sign_partial and C01_remainder_partial (sign of every set-point; 0 <= sgn*remainder <= |request|) under the explicit run-time hypothesis side_ok; C01_side_ok_when_no_deficit derives side_ok for every run without a deficit entry (no group's proportional share below its minimum power) and every pow function non-negative on non-negative arguments. The model is tied to /repo by running the real algorithm and the model on the same generated configurations (1-4 groups x 1-3 batteries x 1-3 inverters, SoC at/over limits, zero exclusion bounds, zero inclusion bounds, equal sort keys, requests at the advertised exclusion bound / inclusion bound / midpoints / beyond, exponents 0-3 exact, non-integer exponents on floats) and comparing exactly; the three clauses are also judged directly on the implementation's output.",
-    "level_note": "Partial: sign/remainder theorems assume side_ok (decidable by evaluation, lower_okb; checked on every in-domain generated case) instead of deriving it from the admission condition in general (derived for deficit-free runs). Missing: with deficits, an uncovered deficit leaves every excess <= 1e-9 but not 0, so request - assigned >= -n*1e-9 only; the general statement needs tolerance-slack versions of the lower-bound lemmas. Trusted: Coq kernel + vm_compute, the harness (generator coverage bounds the tie), lib.exact.X, the source-line tracer used only for statistics. Tolerances 1e-9 (is_close_to_zero, math.isclose) are modelled as exact rational thresholds; generated data stay away from them except where intended. The unchanged tree violated C01 (findings F1, F2: fixed by commits c773a4e, fcfd05e; witnesses in corpus/C01).",
+    "technique": "Coq proofs over an executable Q model of BatteryDistributionAlgorithm (bookkeeping invariants of reservation / deficit covering / greedy top-up / guarded inverter split by induction over the component lists; fuel-sufficiency of the covering loop; permutation lemmas for the sorts; sign flip for supply) + T-tie of the zero tolerance + differential correspondence: the real distribute_power run on exact rationals (duck-typed records, lib.exact.X) vs the model evaluated inside Coq by vm_compute + float run vs exact run + property oracle on the implementation's output",
+    "level_text": "Machine-checked, closed under the global context, no run-time hypotheses: C01_sum (set-points + remainder == request exactly in Q, for EVERY data set and every pow function), C01_reported_is_commanded (request - remainder == sum of set-points, the BatteryManager step), C01_sign (every set-point has the request's sign or is zero: exact, for all well-formed data), C01_remainder (|remainder| <= |request| exactly and sgn*remainder >= -(n*eps + 2*rel_tol*pool inclusion bound) for every admitted request, with or without deficits), C01_left_over_bound (request - assigned >= -n*eps before the greedy top-up). The model is tied to /repo by running the real algorithm and the model on the same generated configurations (1-4 groups x 1-3 batteries x 1-3 inverters, SoC at/over limits, zero exclusion bounds, zero inclusion bounds, equal sort keys, requests at the advertised exclusion bound / inclusion bound / midpoints / beyond / between the enforced and the advertised exclusion bound, exponents 0-3 exact, non-integer exponents on floats) and comparing exactly; the clauses are also judged directly on the implementation's output.",
+    "level_note": "Full (no _partial theorem left). Slack: only the lower half of the remainder clause, explicit in the theorem and below a microwatt for realistic pools. Trusted: Coq kernel + vm_compute, tools/translate.py (eps), the harness (generator coverage bounds the tie), lib.exact.X, the source-line tracer used only for statistics. math.isclose / is_close_to_zero are modelled as exact rational threshold tests; generated data stay away from the thresholds except where intended. The unchanged tree violated C01 (findings F1, F2: fixed by commits c773a4e, fcfd05e; witnesses in corpus/C01).",
 }
